@@ -469,20 +469,50 @@ func runC13(r *Run) {
 			} else {
 				vals = append(vals, fr.Val)
 			}
-			for _, v := range vals {
-				seen := map[ssa.Value]bool{}
-				dependsOn(v, func(x ssa.Value) bool {
-					if seen[x] || !loadOfField(x, "limiter.Config.Max") {
-						return false
-					}
-					seen[x] = true
+			// the reads of cfg.Max whose value goes into the function (through arithmetic, conversions, phis and
+			// constructor arguments — not through memory: what was stored into cfg.Max earlier is not "read early")
+			seen := map[ssa.Value]bool{}
+			var walk func(x ssa.Value, d int)
+			walk = func(x ssa.Value, d int) {
+				x = stripValue(x)
+				if x == nil || seen[x] || d > 8 {
+					return
+				}
+				seen[x] = true
+				if loadOfField(x, "limiter.Config.Max") {
 					if in, ok := x.(ssa.Instruction); ok && in.Parent() == f {
 						if _, hit := reach(pointAfter(in), isMaxStore, nil, nil); hit != nil {
 							early = append(early, r.pos(in))
 						}
 					}
-					return false
-				})
+					return
+				}
+				switch y := x.(type) {
+				case *ssa.Phi:
+					for _, e := range y.Edges {
+						walk(e, d+1)
+					}
+				case *ssa.BinOp:
+					walk(y.X, d+1)
+					walk(y.Y, d+1)
+				case *ssa.Call:
+					for _, a := range y.Call.Args {
+						walk(a, d+1)
+					}
+				case *ssa.MakeClosure:
+					for _, bnd := range y.Bindings {
+						if cell, ok := bnd.(*ssa.Alloc); ok {
+							for _, st := range storesInto(cell) {
+								walk(st.Val, d+1)
+							}
+						} else {
+							walk(bnd, d+1)
+						}
+					}
+				}
+			}
+			for _, v := range vals {
+				walk(v, 0)
 			}
 			r.check(len(early) == 0, fmt.Sprintf("configDefault:default-MaxFunc#%d:built-from-the-settled-Max", n), r.pos(fr.Instr), "every value of cfg.Max that goes into the default MaxFunc is read after the last write of cfg.Max",
 				"the default MaxFunc is built from cfg.Max as it was before the fallback ("+strings.Join(early, ", ")+"): a Config without Max and MaxFunc limits nothing (the handlers ask MaxFunc, which answers 0), a negative Max rejects everything")
